@@ -53,6 +53,9 @@ func renderVaried(s []any) (string, []int, []int, error) {
 		if i == 0 && !nl && next()%2 == 0 {
 			tr = ""
 		}
+		if i == 0 && next()%4 == 0 {
+			tr = "\ufeff" + tr // a byte order mark is white space; offsets count its three bytes
+		}
 		sb.WriteString(tr)
 		one, err := RenderTokens([]any{[]any{tt[0], tt[1], false}})
 		if err != nil {
